@@ -224,7 +224,21 @@ func (obj *SparseFloat64Vector) Slice(i, j int) Vector {
   return obj.SLICE(i, j)
 }
 func (obj *SparseFloat64Vector) Swap(i, j int) {
-  obj.values[i], obj.values[j] = obj.values[j], obj.values[i]
+  _, ok1 := obj.values[i]
+  _, ok2 := obj.values[j]
+  if ok1 && ok2 {
+    obj.values[i], obj.values[j] = obj.values[j], obj.values[i]
+  } else
+  if ok1 {
+    obj.values[j] = obj.values[i]
+    delete(obj.values, i)
+    obj.indexInsert(j)
+  } else
+  if ok2 {
+    obj.values[i] = obj.values[j]
+    delete(obj.values, j)
+    obj.indexInsert(i)
+  }
 }
 func (obj *SparseFloat64Vector) AppendScalar(scalars ...Scalar) Vector {
   r := obj.Clone()
